@@ -205,7 +205,7 @@ def evaluate(desc, R):
                         {
                             "class": "report-depends-on-schedule" if (si, pi) != (0, 1) else "repeat-mismatch",
                             "target": u,
-                            "observed": {"reader": u, "writers": None, "ref": ref, "schedule": si, "pass": pi, "got": got[:3], "want": want[:3], "before": ran[: ran.index(u)]},
+                            "observed": {"reader": u, "writers": None, "ref": ref, "schedule": si, "pass": pi, "got": got[:3], "want": want[:3], "before": [x for q in s["passes"][:pi] for x in q["ran"]] + ran[: ran.index(u)]},
                         }
                     )
             # the identical pass again must give the identical report
@@ -287,7 +287,7 @@ def judge(desc, env):
         o = v["observed"]
         if o.get("reader") in located:
             o["writers"] = located[o["reader"]]
-        elif v["class"] == "report-depends-on-schedule" and o.get("reader") and o.get("before") and o.get("ref") in ("alone", "after-canonical-predecessors", "canonical") and done < 4:
+        elif v["class"] == "report-depends-on-schedule" and o.get("reader") and o.get("before") and o.get("ref") in ("alone", "after-canonical-predecessors", "canonical") and done < 8:
             done += 1
             d = copy.deepcopy(desc)
             d["schedules"] = []
